@@ -42,6 +42,10 @@ pub trait Adapter {
     fn comm_obs(_i: usize, _cm: &Cm<Self>, _st: &St<Self>, _out: &mut Out) {}
     fn proof_obs(_name: &str, _pf: &Pf<Self>, _out: &mut Out) {}
     fn key_obs(_ck: &CK<Self>, _vk: &VK<Self>, _out: &mut Out) {}
+    /// trapdoors recovered by replaying the setup RNG (schemes whose parameters cannot be built from chosen trapdoors)
+    fn trapdoor_obs(_c: &Case, _out: &mut Out) {}
+    /// the polynomial as the library holds it (canonical term list), for schemes whose model needs it
+    fn poly_input(_i: usize, _p: &Self::P, _out: &mut Out) {}
     /// C19: the shape parameters a size formula depends on (vector lengths, option tags)
     /// field draws the committer / the prover take beyond the generic estimate (schemes that always blind)
     fn extra_commit_draws(_c: &Case) -> usize { 0 }
@@ -175,6 +179,7 @@ where
     out.obs("key_degrees", "N", &[ck.supported_degree().to_string(), ck.max_degree().to_string(),
                                    vk.supported_degree().to_string(), vk.max_degree().to_string()]);
     A::key_obs(&ck, &vk, out);
+    A::trapdoor_obs(c, out);
 
     // ---- polynomials ----
     let nv = opt_usize(c.str1("num_vars"));
@@ -187,6 +192,7 @@ where
         labels.push(lab);
         let bound = opt_usize(c.str1(&format!("bound.{}", i)));
         let hiding = opt_usize(c.str1(&format!("hiding.{}", i)));
+        A::poly_input(i, &p, out);
         polys.push(LabeledPolynomial::new(plabel(lab), p, bound, hiding));
     }
     let npts = c.usize1("npts");
